@@ -10,6 +10,7 @@ from ..core import Unrecognised, call_name, calls_in, dotted, facts, module_of, 
 from ..dispatch import check_flow_arity, find_flow_tables, first_guard, resolve_handler
 from ..formulas import LANG, expand_classes, formula_classes, if_chain, isinstance_classes
 from . import c16
+from ..memo import check_memo_keys
 
 EVAL = "src/isla/evaluator.py"
 SOLVER = "src/isla/solver.py"
@@ -267,7 +268,15 @@ def rule_e5(ctx):
     ctx.check(ok, "E5-check", f"{SOLVER}:ISLaSolver.check", "returns bool(verdict)", site(chk), "the verdict must be returned unnegated", "bool(result)")
 
 
+def rule_e6(ctx):
+    n = check_memo_keys(ctx, "E6-memo-key", [LANG, EVAL, "src/isla/derivation_tree.py", "src/isla/isla_predicates.py", "src/isla/helpers.py", "src/isla/trie.py"])
+    ctx.inventory["memo_sites"] = n
+    if n < 2:
+        raise Unrecognised("C03.E6", LANG, f"only {n} memo sites recognised (expected BindExpression.to_tree_prefix)")
+
+
 def run(ctx) -> str:
+    ctx.guarded("E6", lambda: rule_e6(ctx))
     ctx.guarded("E1", lambda: rule_e1(ctx))
     ctx.guarded("E2", lambda: rule_e2(ctx))
     ctx.guarded("E3", lambda: rule_e3(ctx))
